@@ -1,4 +1,5 @@
 import ChythonModel.Model.BitLayout
+import ChythonModel.Model.C09Arrays
 /-!
 # C09 driver — line protocol (all arguments are ints)
 
@@ -10,6 +11,10 @@ import ChythonModel.Model.BitLayout
 * `mt <hasBond> [<qbond>] <qatom> <matom> [<order> <inring> <nbrV1>]` → `<mask test> <pyEq [&& bondEq]>` on one pair
 * `gm <autoF> <hasScope> <k> <scope>*k <lquery> <lmol> <ncomps> (<len> <atom>*len)*` → `C <outcome> ; P <outcome>`
   outcome = `ok <k> | q m q m … | …` in yield order, `err <Exception>`, `crash`
+  (`C` = `cythonPathA`: the `.pyx` matcher with every array access guarded by the regenerated allocation sizes)
+* `ga <old> <k> <scope01>*k <lquery> <lmol>` → per query component `ok <max stack pointer> <pushes> <mappings>` | `oob <array> <index> <size>` |
+  `uninit <array>` | `range`, joined by ` ; ` — `get_mapping` of the `.pyx` on the encoders' buffers with the arrays at the regenerated
+  sizes (`old` = 1: with the `2 * atoms` stack of before repo commit e44243a); scope = one flag per atom in `_atoms` order
 
 `<matom>` = `z iso(-1) charge rad nb hyb k rs*k h(-1) het`; `<qatom>` = `kind z iso(-1) k zs*k charge rad L(nb) L(hyb) L(rs) L(h) L(het) stereo masked`;
 `<qbond>` = `k orders*k inring(-1|0|1) stereo`; `<lmol>` = `N (id <matom> deg (nbr order inring)*deg)*N`;
@@ -144,6 +149,13 @@ def showOutcome : Outcome → String
   | .err e => s!"err {e.name}"
   | .crash => "crash"
 
+def showFault : Except Fault (List Iso.Dict × Stats) → String
+  | .ok (r, st) => s!"ok {st.maxStack} {st.pushes} {r.length}"
+  | .error (.oob a i n) => s!"oob {a.name} {i} {n}"
+  | .error (.uninit a) => s!"uninit {a.name}"
+  | .error .range => "range"
+  | .error .fuel => "fuel"
+
 def b01 (b : Bool) : String := if b then "1" else "0"
 
 def handle (line : String) : String :=
@@ -234,13 +246,36 @@ def handle (line : String) : String :=
                   match readMany readNatList nc.toNat r4 with
                   | some (tc, _) =>
                     let scope := if hs != 0 then some sc else none
-                    s!"C {showOutcome (cythonPathS q m tc scope (af != 0))} ; P {showOutcome (pythonPath q m tc scope (af != 0))}"
+                    s!"C {showOutcome (cythonPathA q m tc scope (af != 0))} ; P {showOutcome (pythonPath q m tc scope (af != 0))}"
                   | none => "error args"
                 | [] => "error args"
               | none => "error args"
             | none => "error args"
           | none => "error args"
         | _ => "error args"
+      | "ga" =>
+        match xs with
+        | old :: r0 =>
+          match readNatList r0 with
+          | some (sc, r1) =>
+            match readLQuery r1 with
+            | some (q, r2) =>
+              match readLMol r2 with
+              | some (m, _) =>
+                match Iso.compileQuery q.graph with
+                | none => "crash"
+                | some (comps, cl) =>
+                  match encQuery q comps cl, encStructure m with
+                  | .ok cqs, .ok cm =>
+                    " ; ".intercalate (cqs.map fun cq =>
+                      let al := if old != 0 then allocOld cq.atoms.length cm.atoms.length else allocOf cq.atoms.length cm.atoms.length
+                      showFault (getMappingA al cm cq (sc.map (· != 0))))
+                  | .error e, _ => s!"err {e.name}"
+                  | _, .error e => s!"err {e.name}"
+              | none => "error args"
+            | none => "error args"
+          | none => "error args"
+        | [] => "error args"
       | _ => "error op"
 
 def main : IO Unit := runDriver handle
